@@ -213,12 +213,26 @@ func checkC17(c c17Case) verdict {
 			}
 			return ok(false, append(labels, "empty")...)
 		}
-		if !allIn(s, hexDigits) || len(s) > 16 {
+		if !allIn(s, hexDigits) {
 			labels = append(labels, "malformed")
 			if err == nil {
-				return bad(true, labels, "ParseHexTimestamp(%q) accepted malformed/overlong text as %x (%d bytes)", s, got, len(got))
+				return bad(true, labels, "ParseHexTimestamp(%q) accepted malformed text as %x (%d bytes)", s, got, len(got))
 			}
 			return ok(true, labels...)
+		}
+		if len(s) > 16 {
+			// more digits than 8 bytes hold: a value that does not fit cannot "become 8 bytes" and must be refused; surplus
+			// leading zeros (the value still fits) are not mentioned by the helper's documentation: refusing them or
+			// returning the 8 bytes of the value are both fine — anything else (more than 8 bytes, another value) is not
+			v, _ := new(big.Int).SetString(s, 16)
+			labels = append(labels, "overlong")
+			if err != nil {
+				return ok(true, labels...)
+			}
+			if !v.IsUint64() || !bytes.Equal(got, be8(v.Uint64())) {
+				return bad(true, labels, "ParseHexTimestamp(%q) accepted overlong text as %x (%d bytes)", s, got, len(got))
+			}
+			return ok(true, append(labels, "overlong-leading-zeros-accepted")...)
 		}
 		v, _ := new(big.Int).SetString(s, 16)
 		if err != nil || !bytes.Equal(got, be8(v.Uint64())) {
@@ -248,7 +262,7 @@ func checkC17(c c17Case) verdict {
 				return bad(true, labels, "HexInputToOCRA(%q) accepted malformed hex", c.F)
 			}
 			if in.Counter != nil || in.Challenge != nil || in.Password != nil || in.SessionInfo != nil || in.Timestamp != nil {
-				return bad(true, labels, "HexInputToOCRA(%q) returned both an error and data", c.F)
+				labels = append(labels, "partial-data-with-error") // not forbidden by the statement: the error is the rejection
 			}
 			return ok(true, labels...)
 		}
